@@ -26,6 +26,27 @@ TITLE_CHARS = list("abcxyzABXZ019") + ["é", "ß", "ö", "я", "の", "中", "\U
 IMG_CHARS = list("abcxyzABXZ019") + ["é", "ß", "я", "の", "\U00010428", "-", ".", "~", "ö"]     # the property's alphabet (plus space below)
 
 
+# normalize_and_get_image_path names its images/safe/ symlink sha256-hex (64 characters) + everything after the LAST dot
+# of the stored name: a title whose last dot is followed by more than 190 characters cannot be served (ENAMETOOLONG,
+# reported with /verif/fixes/C14-safe-link-extension.diff).  Until that fix is in /repo such titles are only generated when
+# VERIF_C14_LONG_DOT_TAIL=1 is set (make that the default once the fix is committed).
+DOT_TAIL_ROOM = 10 ** 6 if os.environ.get("VERIF_C14_LONG_DOT_TAIL") else 255 - 64
+
+
+def esc_cost(s):
+    """length of the file name the archive format spends on `s` (a title over the property's alphabet): one character per
+    ASCII letter/digit/space/-/./_ , two per '~', '~<decimal code point>~' per non-ASCII character"""
+    n = 0
+    for c in s:
+        if c == "~":
+            n += 2
+        elif ord(c) < 128:
+            n += 1
+        else:
+            n += len(str(ord(c))) + 2
+    return n
+
+
 def load_sites(src):
     sites = {}
     for f in sorted(glob.glob(os.path.join(src, "mwlib", "network", "known_sites", "siteinfo-*.json"))):
@@ -42,6 +63,7 @@ class CaseGen:
         self.rng = rng
         self.sites = sites
         self.g12 = c12_gen.Gen(rng, sites)
+        self.skipped_dot_tail = 0
 
     def remainder(self, chars, maxlen=8):
         r = self.rng
@@ -238,6 +260,57 @@ class CaseGen:
                 queries.append(({"q": "image", "name": sp}, {"data": data} if in_alphabet else None))
             if in_alphabet:
                 queries.append(({"q": "image", "name": p}, {"data": data}))      # default namespace 6
+        # ---- families of LONG image titles (up to MediaWiki's 255-byte title limit and the 255-byte file-name limit)
+        # that share a long prefix / differ only near the end, in the middle, at the start or in the extension: all stored
+        # in this one archive, each with its own bytes, each asked under its canonical title and under other spellings
+        if r.random() < 0.4:
+            nsname = star[6]
+            ext = r.choice([".png", ".jpg", ".svg", ".PNG", ".tiff", ""])
+            room = 255 - esc_cost(nsname)                    # what fits into one file name after the namespace name
+            total = min(room, r.choice([r.randrange(24, 120), r.randrange(120, 236), r.randrange(236, 256), 255, room]))
+            words = []
+            alphabet = IMG_CHARS if r.random() < 0.5 else list("abcdefghijklmnopqrstuvwxyzABCXYZ0123456789") + ["-", ".", "~"]
+            k = r.choice([2, 2, 3, 4, 5])
+            tails = r.sample(["1", "2", "12", "21", "a", "b", "A", "x y", "1-2", "1.2", "1~", "é", "9", "10", "III", "II"], k)
+            where = r.choice(["end", "end", "end", "middle", "start", "ext"])
+            exts = [ext] * k
+            if where == "ext":
+                exts = r.sample([".png", ".jpg", ".svg", ".gif", ".PNG", ".jpeg"], k)
+                tails = [""] * k
+            budget = total - max(esc_cost(e) for e in exts) - max(esc_cost(t) for t in tails) - 1
+            body = ""
+            while True:
+                w = "".join(r.choice(alphabet) for _ in range(r.choice([1, 2, 3, 5, 8, 13])))
+                cand = (body + " " + w) if body else w
+                if esc_cost(cand) > budget or len(cand.encode("utf8")) > 240:
+                    break
+                body = cand
+            body = body.strip() or "x"
+            if not body[0].isalnum():
+                body = "M" + body[1:]
+            for tail, e in zip(tails, exts):
+                if where in ("end", "ext"):
+                    base = body + (" " + tail if tail else "")
+                elif where == "start":
+                    base = tail + " " + body
+                else:
+                    cut = len(body) // 2
+                    base = " ".join((body[:cut] + " " + tail + " " + body[cut:]).split())
+                p = c12_gen.capitalize(base + e) if cap else base + e
+                t = nsname + ":" + p
+                key = t.replace("_", " ")
+                if key in img_titles or len(p.encode("utf8")) > 255 or esc_cost(t.replace(":", "")) > 255:
+                    continue
+                if "." in p and esc_cost(p.rsplit(".", 1)[1]) + 1 > DOT_TAIL_ROOM:
+                    self.skipped_dot_tail += 1
+                    continue
+                data = "img-%d-%d" % (cid, len(images))
+                img_titles[key] = data
+                images.append({"title": t, "data": data})
+                queries.append(({"q": "image", "name": t}, {"data": data}))
+                for sp, dns in self.spellings(lang, 6, p, r.choice([0, 1, 2])):
+                    if "%" not in sp:
+                        queries.append(({"q": "image", "name": sp}, {"data": data}))
         case = {"id": cid, "site": lang, "ops": ops, "redirects": redirects, "images": images, "queries": [q for q, _o in queries]}
         meta = {"oracles": [o for _q, o in queries], "image_alphabet": [im["title"] for im in images], "pages": len(pages),
                 "redirect_texts": len(redirect_text_titles)}
@@ -355,28 +428,11 @@ def evaluate(run, cases, metas, results, exe, stats):
         stats["redirect_page_texts"] += meta["redirect_texts"]
         replay = {"case": case, "oracles": meta["oracles"]}
         # ---------------- monitor (independent of the model)
+        found = monitor_case(case, meta["oracles"], res)
+        for fp, what, _qi in found:
+            run.hit(fp, what, replay)
         if res["error"]:
-            run.hit("error:%s:%d" % (res["error"][:60], cid), "real pipeline failed: " + res["error"], replay)
             continue
-        for i, (q, orc, ans) in enumerate(zip(case["queries"], meta["oracles"], res["answers"])):
-            if ans is not None and "exc" in ans:
-                run.hit("exc:%s" % json.dumps(q, sort_keys=True), "query %r raised %s" % (q, ans["exc"]), replay)
-                continue
-            if orc is None:
-                continue
-            if orc == "absent":
-                if ans is not None:
-                    run.hit("phantom:%s" % json.dumps(q, sort_keys=True), "query %r for a page never written returned %r" % (q, ans), replay)
-                continue
-            if q["q"] == "image":
-                if ans is None or ans["data"] != orc["data"]:
-                    run.hit("image:%s:%s" % (case["site"], q["name"]),
-                            "image stored as one of %r asked as %r: got %r, stored data %r" % (meta["image_alphabet"], q["name"], ans, orc["data"]), replay)
-                continue
-            if ans is None or ans["text"] != orc["text"] or ans["title"] != orc["title"] or ans["revid"] != orc["revid"]:
-                got = None if ans is None else {k: ans[k] for k in ("title", "revid", "text")}
-                run.hit("page:%s:%s" % (case["site"], json.dumps(q, sort_keys=True)),
-                        "query %r: expected %r got %r" % (q, orc, got), replay)
         # ---------------- correspondence
         mfile, mans = parse_model(ml)
         if mans == "READERR":
@@ -397,6 +453,235 @@ def evaluate(run, cases, metas, results, exe, stats):
         if len(run.samples) < 4 and meta["pages"] > 1 and case["images"]:
             run.sample({"site": case["site"], "ops": case["ops"][:2], "queries": case["queries"][:4], "answers": real[:4]})
     return dis
+
+
+def monitor_case(case, oracles, res):
+    """The property's round-trip oracle on the REAL answers of one archive.  -> [(fingerprint, what, query index | None)]"""
+    out = []
+    cid = case["id"]
+    stored = [im["title"] for im in case["images"]]
+    if res["error"]:
+        return [("error:%s:%d" % (res["error"][:60], cid), "real pipeline failed: " + res["error"], None)]
+    for i, (q, orc, ans) in enumerate(zip(case["queries"], oracles, res["answers"])):
+        if ans is not None and "exc" in ans:
+            out.append(("exc:%s" % json.dumps(q, sort_keys=True), "query %r raised %s" % (q, ans["exc"]), i))
+            continue
+        if orc is None:
+            continue
+        if orc == "absent":
+            if ans is not None:
+                out.append(("phantom:%s" % json.dumps(q, sort_keys=True), "query %r for a page never written returned %r" % (q, ans), i))
+            continue
+        if q["q"] == "image":
+            if ans is None or ans["data"] != orc["data"]:
+                whose = [im["title"] for im in case["images"] if ans is not None and im["data"] == ans["data"]]
+                out.append(("image:%s:%s" % (case["site"], q["name"]),
+                            "image stored as one of %r asked as %r: got %r%s, stored data %r"
+                            % (stored, q["name"], ans, (" = the bytes of %r" % whose[0]) if whose else "", orc["data"]), i))
+            continue
+        if ans is None or ans["text"] != orc["text"] or ans["title"] != orc["title"] or ans["revid"] != orc["revid"]:
+            got = None if ans is None else {k: ans[k] for k in ("title", "revid", "text")}
+            out.append(("page:%s:%s" % (case["site"], json.dumps(q, sort_keys=True)), "query %r: expected %r got %r" % (q, orc, got), i))
+    return out
+
+
+# ---------------------------------------------------------------------------------------------- minimisation
+class Shrinker:
+    """Delta debugging of one failing archive on the REAL code: keep one failing query, drop pages (with everything that
+    refers to them), redirects and images, then delete the same characters from all image titles — as long as the monitor
+    still reports a hit of the same kind.  Every candidate is a full write -> zip -> open -> query run in one of
+    `workers` long-lived harness processes; of the candidates tried together the FIRST one (in order) that still fails wins."""
+
+    def __init__(self, src, kind, seconds=60, workers=6):
+        import time
+        self.kind, self.deadline, self.runs = kind, time.time() + seconds, 0
+        self.time = time
+        self.procs = []
+        for i in range(workers):
+            box = os.path.join(core.scratch(), "c14min%d" % i)
+            os.makedirs(box, exist_ok=True)
+            self.procs.append(subprocess.Popen([core.PY, "-m", "vt.harness.c14_impl", box], cwd=core.VERIF, env=core.impl_env(src),
+                                               stdin=subprocess.PIPE, stdout=subprocess.PIPE, stderr=subprocess.DEVNULL))
+        self.pool = concurrent.futures.ThreadPoolExecutor(max_workers=workers)
+        self.serial = 0
+
+    def close(self):
+        for p in self.procs:
+            try:
+                p.stdin.close()
+                p.wait(timeout=20)
+            except Exception:  # noqa: BLE001
+                p.kill()
+        self.pool.shutdown(wait=False)
+
+    def spent(self):
+        return self.time.time() > self.deadline
+
+    def _one(self, slot, cand):
+        case, oracles = cand
+        self.serial += 1
+        c = dict(case, id=1000000 + self.serial * 8 + slot)
+        p = self.procs[slot]
+        p.stdin.write((json.dumps(c) + "\n").encode("ascii"))
+        p.stdin.flush()
+        line = p.stdout.readline()
+        if not line.startswith(b"{"):
+            return None
+        r = json.loads(line)
+        if "harness_error" in r:
+            return None
+        return [h for h in monitor_case(c, oracles, r) if h[0].split(":", 1)[0] == self.kind]
+
+    def all_hits(self, cand):
+        self.runs += 1
+        return self._one(0, cand) or []
+
+    def first(self, cands):
+        """-> (index, hit) of the first candidate (in order) that still fails, or None"""
+        k = len(self.procs)
+        for off in range(0, len(cands), k):
+            if self.spent():
+                return None
+            chunk = cands[off:off + k]
+            self.runs += len(chunk)
+            res = list(self.pool.map(lambda a: self._one(a[0], a[1]), list(enumerate(chunk))))
+            for j, hs in enumerate(res):
+                if hs:
+                    return off + j, hs[0]
+        return None
+
+    @staticmethod
+    def page_titles(case):
+        ts = []
+        for op in case["ops"]:
+            for t in ([p["title"] for p in op["pages"]] if op["op"] == "pages" else [op["title"]]):
+                if t not in ts:
+                    ts.append(t)
+        return ts
+
+    @staticmethod
+    def drop_titles(case, oracles, gone):
+        """the archive without the page titles `gone`: their write ops, the queries about them, redirects to/from them"""
+        gone = set(gone)
+        ops = []
+        for op in case["ops"]:
+            if op["op"] == "pages":
+                pages = [p for p in op["pages"] if p["title"] not in gone]
+                if pages:
+                    ops.append(dict(op, pages=pages))
+            elif op["title"] not in gone:
+                ops.append(op)
+        via = {a for a, b in case["redirects"].items() if b in gone}
+        reds = {a: b for a, b in case["redirects"].items() if a not in gone and b not in gone}
+        keep = [i for i, (q, o) in enumerate(zip(case["queries"], oracles))
+                if q["q"] == "image" or o == "absent" or (isinstance(o, dict) and o.get("title") not in gone and q.get("name") not in via)]
+        return dict(case, ops=ops, redirects=reds, queries=[case["queries"][i] for i in keep]), [oracles[i] for i in keep]
+
+    def run(self, case, oracles):
+        try:
+            return self._run(case, oracles)
+        finally:
+            self.close()
+
+    def _run(self, case, oracles):
+        hits = self.all_hits((case, oracles))
+        if not hits:
+            return None
+        cur, cor, hit = case, oracles, hits[0]
+        # 1. one failing query (prefer one that asks with the stored / canonical title itself, then the shortest)
+        stored = {im["title"] for im in cur["images"]} | set(self.page_titles(cur))
+        qhits = [h for h in hits if h[2] is not None]
+        qhits.sort(key=lambda h: (cur["queries"][h[2]].get("name") not in stored, len(cur["queries"][h[2]].get("name", ""))))
+        cands = [(dict(cur, queries=[cur["queries"][h[2]]]), [cor[h[2]]]) for h in qhits[:6]]
+        got = self.first(cands)
+        if got:
+            (cur, cor), hit = cands[got[0]], got[1]
+        # 2. pages, redirects, images that the remaining queries do not talk about: all at once, then one by one
+        needed_titles = {o["title"] for o in cor if isinstance(o, dict) and "title" in o}
+        needed_titles |= {b for a, b in cur["redirects"].items() if a in {q.get("name") for q in cur["queries"]}}
+        needed_data = {o["data"] for o in cor if isinstance(o, dict) and "data" in o}
+        c2, o2 = self.drop_titles(cur, cor, [t for t in self.page_titles(cur) if t not in needed_titles])
+        c2 = dict(c2, redirects={a: b for a, b in c2["redirects"].items() if b in needed_titles})
+        got = self.first([(c2, o2)])
+        if got:
+            cur, cor, hit = c2, o2, got[1]
+        while not self.spent():
+            cands = [self.drop_titles(cur, cor, [t]) for t in self.page_titles(cur) if t not in needed_titles]
+            cands += [(dict(cur, redirects={x: y for x, y in cur["redirects"].items() if x != a}), cor) for a in cur["redirects"]]
+            cands += [(dict(cur, images=[x for x in cur["images"] if x is not im]), cor) for im in cur["images"] if im["data"] not in needed_data]
+            got = self.first(cands)
+            if not got:
+                break
+            (cur, cor), hit = cands[got[0]], got[1]
+        # 3. the same characters deleted from every image title (and from the query, when it asks with the stored title)
+        if self.kind == "image" and len(cur["queries"]) == 1 and cur["queries"][0]["name"] in {im["title"] for im in cur["images"]}:
+            cur, hit = self.shrink_image_titles(cur, cor, hit)
+        return cur, cor, hit
+
+    def shrink_image_titles(self, cur, cor, hit):
+        def apply(case, f):
+            """f maps the part after 'Ns:' of every title; None when a title becomes non-canonical or two titles collide"""
+            imgs, seen = [], set()
+            newq = None
+            for im in case["images"]:
+                ns, p = im["title"].split(":", 1)
+                p2 = f(p)
+                if not p2 or p2 != " ".join(p2.split()) or p2[0] != c12_gen.capitalize(p2)[0] or not p2[0].isalnum() or p2 in seen:
+                    return None
+                seen.add(p2)
+                imgs.append(dict(im, title=ns + ":" + p2))
+                if im["title"] == case["queries"][0]["name"]:
+                    newq = ns + ":" + p2
+            return dict(case, images=imgs, queries=[dict(case["queries"][0], name=newq)])
+
+        # plain ASCII letters first
+        c2 = apply(cur, lambda p: c12_gen.capitalize("".join(ch if ord(ch) < 128 else "a" for ch in p)))
+        if c2 is not None and c2 != cur:
+            got = self.first([(c2, cor)])
+            if got:
+                cur, hit = c2, got[1]
+        c2 = apply(cur, lambda p: p[0] + "".join("a" if ch.isalnum() else ch for ch in p[1:]))
+        if c2 is not None and c2 != cur:
+            got = self.first([(c2, cor)])
+            if got:
+                cur, hit = c2, got[1]
+        size = max(len(im["title"]) for im in cur["images"]) // 2
+        while size >= 1 and not self.spent():
+            i = 1
+            while not self.spent():
+                length = max(len(im["title"].split(":", 1)[1]) for im in cur["images"])
+                if i >= length:
+                    break
+                pos, cands = [], []
+                j = i
+                while j < length and len(cands) < len(self.procs):
+                    c2 = apply(cur, lambda p, j=j: p[:j] + p[j + size:] if len(p) > j else p)
+                    if c2 is not None and c2 != cur:
+                        pos.append(j)
+                        cands.append((c2, cor))
+                    j += size
+                got = self.first(cands) if cands else None
+                if got:
+                    cur, hit = cands[got[0]][0], got[1]
+                    i = pos[got[0]]
+                else:
+                    i = j
+            size //= 2
+        return cur, hit
+
+
+class Collect:
+    """stands in for the Run while evaluate() runs: keeps the monitor's hits for minimisation"""
+
+    def __init__(self, run):
+        self._run = run
+        self.found = []
+
+    def hit(self, fp, what, replay):
+        self.found.append((fp, what, replay))
+
+    def __getattr__(self, name):
+        return getattr(self._run, name)
 
 
 def build():
@@ -466,7 +751,39 @@ def check(run):
     results = [byid[c["id"]] for c in cases]
     stats = {k: 0 for k in ["cases", "pages", "queries", "images", "redirects", "records", "texts_starting_with_separator_tail",
                             "redirect_page_texts"]}
-    dis = evaluate(run, cases, metas, results, exe, stats)
+    col = Collect(run)
+    dis = evaluate(col, cases, metas, results, exe, stats)
+    stats["image_titles_skipped_dot_tail"] = gen.skipped_dot_tail
+    stats["image_name_length_max"] = max([len(f) for r in results for f in r.get("image_files", [])] or [0])
+    stats["image_names_longer_than_200"] = sum(1 for r in results for f in r.get("image_files", []) if len(f) > 200)
+    stats["archives_with_4_or_more_images"] = sum(1 for c in cases if len(c["images"]) >= 4)
+    # ---- report: the first failing archives minimised on the real code, a few more as found
+    minimised_cases, raw_cases, seen_fp = set(), set(), set()
+    for fp, what, rp in col.found:
+        cid = rp["case"]["id"]
+        if cid in minimised_cases or cid in raw_cases:
+            continue
+        if len(minimised_cases) < 2:
+            minimised_cases.add(cid)
+            small = None
+            try:
+                small = Shrinker(src, fp.split(":", 1)[0], seconds=60 if quick else 150).run(rp["case"], rp["oracles"])
+            except Exception as e:  # noqa: BLE001   (the hit as found is still a hit)
+                core.log("C14: minimisation failed: %r" % (e,))
+            if small is not None:
+                case2, or2, hit2 = small
+                case2 = dict(case2, id=0)
+                if hit2[0] in seen_fp:
+                    continue
+                seen_fp.add(hit2[0])
+                run.hit(hit2[0], hit2[1] + "   [minimised on the real code from an archive with %d write ops, %d images, %d queries]"
+                        % (len(rp["case"]["ops"]), len(rp["case"]["images"]), len(rp["case"]["queries"])),
+                        {"case": case2, "oracles": or2, "found_as": {"fingerprint": fp, "case": rp["case"], "oracles": rp["oracles"]}})
+                continue
+            run.hit(fp, what, rp)
+        elif len(raw_cases) < 3:
+            raw_cases.add(cid)
+            run.hit(fp, what, rp)
     run.tie("archive: model vs FsOutput/zip_dir/make_wiki (revisions file bytes, every lookup answer, image file names)", len(cases), dis)
     run.coverage["input_distribution"] = stats
     run.coverage["exhaustive"] = False
